@@ -127,6 +127,13 @@ func (ex *Exec) callBuiltin(caller *frame, fn *ssa.Builtin, args []Value) Value 
 			}
 			return c.ConstS(64, int64(len(x.Entries)))
 		case *Chan:
+			// len(ch) observes the channel's buffer: with several goroutines it is a visible
+			// operation that depends on every send / receive / close of that channel
+			if x != nil && caller != nil && len(ex.rt.gs) > 1 {
+				g := caller.gor()
+				ex.rt.visible(g, &pendingOp{kind: opAtomic, obj: x})
+				g.pending = nil
+			}
 			return ex.rt.chanLen(x)
 		}
 		unsupp("len of %T", args[0])
